@@ -122,9 +122,13 @@ def returned_param(model, unit, name, _depth=0):
         e = strip(kids(rets[0])[0], casts=True)
         for _ in range(6):
             if e["kind"] == "DeclRefExpr" and e.get("ref", {}).get("kind") == "ParmVarDecl":
-                for i_, p_ in enumerate(f.params):
-                    if p_.get("id") == e["ref"].get("id"):
-                        res = i_
+                pw = [y for y in walk(f.body) if y["kind"] in ("BinaryOperator", "CompoundAssignOperator", "UnaryOperator") and
+                      (y.get("opcode", "").endswith("=") and y.get("opcode") not in ("==", "!=", "<=", ">=") or y.get("opcode") in ("++", "--"))
+                      and strip(kids(y)[0], casts=True).get("ref", {}).get("id") == e["ref"].get("id")]
+                if not pw:                       # the parameter still holds the argument
+                    for i_, p_ in enumerate(f.params):
+                        if p_.get("id") == e["ref"].get("id"):
+                            res = i_
                 break
             if e["kind"] == "DeclRefExpr" and e.get("ref", {}).get("kind") == "VarDecl":
                 defs = [v for v in walk(f.body) if v["kind"] == "VarDecl" and v.get("id") == e["ref"].get("id") and kids(v)]
